@@ -399,6 +399,8 @@ def run_campaign(tier, seed, jobs, only_runs=None):
     cfg = dict(TIERS[tier])
     if os.environ.get("VERIF_PLANS"):
         cfg["plans"] = int(os.environ["VERIF_PLANS"])
+    if os.environ.get("VERIF_MIN_GROUPS"):  # how many root causes get minimised (regression runs: 1)
+        cfg["min_groups"] = int(os.environ["VERIF_MIN_GROUPS"])
     scratch = Scratch()
     ctx = make_context(jobs, scratch)
     tree = ctx.tree
